@@ -106,6 +106,10 @@ def run(tier):
             jobs.append((h, list(MODES)[(i // 6) % len(MODES)], 5))
         if i % 6 == 3:
             jobs.append((h, list(MODES)[(i // 6) % len(MODES)], 6))
+        if i % 6 in (1, 4):     # coloured as `git diff --ws-error-highlight=all` colours: context lines carry resets, too
+            jobs.append((h, list(MODES)[(i // 6) % len(MODES)], 7))
+        if i % 6 in (2, 5):     # lines beyond the maximum length with a double-width character at the limit
+            jobs.append((h, "rs+maxlen100", 8))
     intern = gitskin.Interner()
 
     def ws_payload(k, c):
@@ -117,6 +121,9 @@ def run(tier):
     def ctrl_payload(k, c):
         # C0 control characters inside the text (nroff overstrike, bell, vertical tab, form feed)
         return [f"tokZ{k}Z N\x08NA\x08AM\x08M w{k % 3}", f"tokZ{k}Z bell\x07 vt\x0b ff\x0c end", f"tokZ{k}Z w{k % 3}"][k % 3]
+    def wide_payload(k, c):
+        # the cut at --max-line-length 100 falls before / inside / after a double-width character; trailing blanks (coloured apart)
+        return f"tokZ{k}Z " + "a" * (k % 3) + "\u4e16\u754c" * 50 + " end" + ("  " if k % 2 == 0 else "")
     enc = lambda t: t.encode("utf-8", "surrogateescape")
 
     def one(job):
@@ -124,6 +131,8 @@ def run(tier):
         if variant in (5, 6):      # hunk lines that are not valid UTF-8 / that contain control characters
             texts = gitskin.concretise_texts(h, payload=bad_utf8_payload if variant == 5 else ctrl_payload)
             data = b"".join(enc(t) + b"\n" for t in texts)
+        elif variant == 8:
+            data, texts = gitskin.concretise(h, payload=wide_payload, skin={"frag": "long"})
         else:
             data, texts = gitskin.concretise(h, payload=ws_payload, skin={"frag": "long"} if m == "rs+maxlen100" else None)
         ctexts = gitskin.colourise(h, texts, variant)
@@ -147,7 +156,7 @@ def run(tier):
         ky, ry = passthrough(bc, [stream.normalise_line(t.encode("utf-8", "surrogateescape")) for t in ctexts], intern)
         events.append({"run": i, "kind": "equalp", "x": rows_p, "y": rows_c, "kx": kx, "rx": rx, "ky": ky, "ry": ry,
                        "z": [], "ex": []})
-        if m == "rs" and variant not in (5, 6):   # "identical" must not mean "identically wrong": the coloured run is also judged by Obs_Stream
+        if m == "rs" and variant not in (5, 6, 8):   # "identical" must not mean "identically wrong": the coloured run is also judged by Obs_Stream
             # (a CR at the end of a line is dropped by delta - permitted - so it is not part of the text expected)
             ev, rows = stream.run_event(len(sevents), h, [t[:-1] if t.endswith("\r") else t for t in texts], rc_, {"keep": False, "tabs": 8, "colorOnly": False,
                                                                       "buf": 32, "hhFile": True, "rel": False, "wd": False, "commitRaw": False}, intern=intern, skin={})
@@ -219,8 +228,9 @@ def run(tier):
         "states": tr.distinct, "transitions": tr.generated,
         "traces_validated_against_impl": len(events) + ns, "evaluations": 2 * len(jobs) + len(mjobs),
         "distinct_nontrivial": len({json.dumps(j[0]) + j[1] + str(j[2]) for j in jobs}) + len(mjobs),
-        "rule": "histories with hunk lines from the transition cover x modes x 4 git colourings (per-line / per-marker, ESC[m / "
-                "ESC[0m, whitespace-error highlighting): plain and coloured runs compared row by row by TLC (rows that pass an input "
+        "rule": "histories with hunk lines from the transition cover x modes x git colourings (per-line / per-marker, ESC[m / "
+                "ESC[0m, whitespace-error highlighting on added lines and, as with --ws-error-highlight=all, on every hunk line; lines beyond "
+                "--max-line-length with a double-width character at the cut): plain and coloured runs compared row by row by TLC (rows that pass an input "
                 "line through must equal the coloured input line instead); moved-line renditions x {minus, plus} x markers kept/removed: "
                 "per-character (fg, bg, attributes) compared by TLC",
         "modes": sorted(MODES), "moved_renditions": MOVED, "transition_cover": covstats,
